@@ -144,9 +144,13 @@ def run_lease(idx, rng, tier):
 
 def classify(w):
     d = w.get('detail', {})
-    if w.get('clause') == 'frame-after-stream-terminated' and d.get('stream_kind') == 'channel' \
-            and d.get('terminated_by') in ('own CANCEL sent', 'own ERROR sent', 'ERROR received') \
-            and str(d.get('frame', '')).split('(')[0] in ('PAYLOAD', 'ERROR', 'REQUEST_N', 'CANCEL'):
-        # the library closes only one direction of a channel on ERROR / requester CANCEL
-        return 'channel-direction-survives-termination'
+    if w.get('clause') == 'frame-after-stream-terminated' and d.get('stream_kind') == 'channel':
+        # the library closes only one direction of a channel on ERROR / requester CANCEL: the direction that
+        # survives keeps emitting ITS frame types - the endpoint's own publisher (PAYLOAD, ERROR) after its own
+        # CANCEL or a received ERROR, the endpoint's own subscriber (REQUEST_N, CANCEL) after its own ERROR
+        frame = str(d.get('frame', '')).split('(')[0]
+        surviving = {'own CANCEL sent': ('PAYLOAD', 'ERROR'), 'ERROR received': ('PAYLOAD', 'ERROR'),
+                     'own ERROR sent': ('REQUEST_N', 'CANCEL')}.get(d.get('terminated_by'), ())
+        if frame in surviving:
+            return 'channel-direction-survives-termination'
     return None
